@@ -74,7 +74,10 @@ Proof.
   apply np_do. intros s. destruct s as [[row|]|]; [apply IH|apply IH|constructor].
 Qed.
 Lemma np_info cfg : nopanic (info_disabled cfg).
-Proof. unfold info_disabled. apply nopanic_bind; [apply np_balance|]. intros b. destruct b; constructor. Qed.
+Proof.
+  unfold info_disabled. apply np_do. intros sd. destruct sd; [|constructor].
+  apply nopanic_bind; [apply np_balance|]. intros b. destruct b; constructor.
+Qed.
 
 (* every request except a rotation or a (re)start: no Panic leaf is reachable, for any store contents, any backend answers,
    any injected storage error and at any crash cut *)
